@@ -112,18 +112,33 @@ def gen_case(rng):
             if rng.random() < 0.3 else 0, **lim}
 
 
+# CPU seconds (user mode, this process) one run of the real VM may use: the
+# reference interpreter ends every one of these programs, and on the
+# unchanged tree the slowest real run stays below a hundredth of it
+CPU_BUDGET = 30.0
+NONTERMINATING = [0]
+
+
 def run_real(case):
     functions = env.mods()[0]
     env.Clock.now = NOW
     env.Entropy.reset(b'c06')
+    from .. import instr
+    watch = instr.cpu_budget(CPU_BUDGET)
     try:
-        _, stack, cache = functions.run_script(
-            case['prog'], copy.deepcopy(case['cache']), dict(CONTRACTS),
-            dict(case['flags']),
-            {k: list(v) for k, v in PLUGSETS[case.get('plugset', 0)].items()},
-            case['max_items'], case['max_item_size'], case['limit'])
+        with watch:
+            _, stack, cache = functions.run_script(
+                case['prog'], copy.deepcopy(case['cache']), dict(CONTRACTS),
+                dict(case['flags']),
+                {k: list(v) for k, v in
+                 PLUGSETS[case.get('plugset', 0)].items()},
+                case['max_items'], case['max_item_size'], case['limit'])
     except BaseException as e:
+        if watch.fired:
+            return 'does-not-end', type(e).__name__, None
         return 'error', type(e).__name__, None
+    if watch.fired:
+        return 'does-not-end', None, None
     return 'ok', list(stack.deque), {k: v for k, v in cache.items()
                                      if isinstance(k, bytes)}
 
@@ -190,8 +205,20 @@ def judge(ctx, case):
     except RecursionError:
         ctx.count('unspecified_skipped')
         return
+    if NONTERMINATING[0] >= 3:
+        # three runs of this shard did not end: the verdict is in, and every
+        # further such run would cost the whole CPU budget again
+        ctx.count('skipped.after_three_nonterminating_runs')
+        return
     rstatus, rstack, rcache = run_real(case)
     ctx.tab('outcome', f'real={rstatus} model={mstatus}')
+    if rstatus == 'does-not-end':
+        NONTERMINATING[0] += 1
+        ctx.violation('vm-run-does-not-end', f'the real VM used {CPU_BUDGET} '
+                      's of CPU time on a program the reference interpreter '
+                      f'ends ({mstatus}): a loop inside an instruction that '
+                      'no limit stops', case, mstatus, 'no end')
+        return
     diff = None
     if rstatus != mstatus:
         diff = ('outcome', mstatus, f'{rstatus} {rstack if rstatus == "error" else ""}')
